@@ -165,6 +165,8 @@ bool Relay::filter_answer(Dgram &d)
 					if (c == '_' && under_a == "mangle") c = '-';
 				}
 			};
+			// the question section and the owner names are names too (a relay that normalises case does it everywhere)
+			if (case_a != "keep") { for (auto &q : m.qd) { DnsName before = q.name; fix(q.name); for (auto &r : m.an) if (r.name.labels == before.labels) r.name = q.name; } }
 			for (auto &r : m.an) { if (r.type == QT_CNAME || r.type == QT_MX || r.type == QT_SRV || r.type == QT_NS) fix(r.rname); if (ttl_rewrite) r.ttl = 30; }
 			if (shuffle && m.an.size() > 1) {
 				for (size_t i = m.an.size() - 1; i > 0; i--) { size_t j = splitmix64(key ^ (i * 77)) % (i + 1); std::swap(m.an[i], m.an[j]); }
